@@ -5,7 +5,7 @@ HERE = os.path.dirname(os.path.dirname(os.path.abspath(__file__)))
 props = [json.loads(l)['id'] for l in open(os.path.join(HERE, 'properties.jsonl'))]
 
 TRUST = ('trusted base: rustc nightly type-checked MIR (mir-opt-level=0) of /repo as dumped by tools/mirfacts, and the Python '
-         'rule library under rules/; user closures, FromStr impls and third-party Parser impls are assumptions. ')
+         'rule library under rules/ (incl. rules/normalize.py, which renames moved/renamed functions back to their reviewed paths and inlines helpers the reviewed tree does not know before rules run; audit/functions.json); user closures, FromStr impls and third-party Parser impls are assumptions. ')
 
 def C(technique, text, ref, note='', category='other'):
     return dict(technique=technique, text=text, ref=ref, note=TRUST + note, category=category)
@@ -15,86 +15,86 @@ CLAIMED = {
    'Decides structural necessary conditions of grammar conformance: every primitive consumer takes the leftmost in-scope present match through the filtered iterator and removes what it read; '
    'ledger primitives are guarded; every documented form of construct! (expanded by the current macro in a witness crate) evaluates each field once, in order, on the shared state, without '
    'short-circuit, reporting the first failing field; parse_option decision table (76 rows) and loop-exit rules for some/many/count/last/collect; the leftover check dominates every Ok of run_subparser. '
-   'Does NOT decide language equivalence for every shape x vector (run-time data).', 'DESIGN.md section 5 C01'),
+   'Does NOT decide language equivalence for every shape x vector (run-time data).', 'DESIGN.md sections 0, 5 and Appendix E, C01'),
  'C02': C('walker-exhaustiveness and accumulator-wiring rules for the short-name registry, accept-set tables, lossy-call census + passthrough reachability in parse_os_str, decision table of disambiguate_short by abstract evaluation, byte/char boundary discipline by provenance',
    'Decides: the registry that splits `-abc` is complete and wired (flags/args never swapped, help/version shorts included, built from the own meta before tokenising); the attached-value bit is set exactly where the value '
    'item is pushed next and take_arg accepts exactly Word|ArgWord; no lossy/normalising call on the value path, OsString/PathBuf bypass to_str; the 4-row cluster table; cluster cut offsets are character boundaries '
-   '(found and fixed cdb4e81: `-ñ=v`). Does NOT decide that split_os_argument is a correct transducer for every byte string.', 'DESIGN.md section 5 C02'),
+   '(found and fixed cdb4e81: `-ñ=v`). Does NOT decide that split_os_argument is a correct transducer for every byte string.', 'DESIGN.md sections 0, 5 and Appendix E, C02'),
  'C03': C('provenance (index-is-opaque) + search-kind and accept-set tables over MIR',
    'Decides the anchored mechanism only: named consumers select by name over the whole scope and the index found flows only into remove/get/+1/current; words never match a name; '
-   'positional consumers skip named items. Does NOT decide permutation invariance of outcomes.', 'DESIGN.md section 5 C03'),
+   'positional consumers skip named items. Does NOT decide permutation invariance of outcomes.', 'DESIGN.md sections 0, 5 and Appendix E, C03'),
  'C04': C('audited panic-site census over MIR (asserts, Index/slice ops, unwrap, explicit panics, exit), byte/char index discipline by provenance, loop-driver classification + cursor/progress variants, call-graph SCC census, effect/static/interior-mutability census',
-   'Decides: every panic-capable site of every analysed configuration is covered by the hand-reviewed audit (a new site/kind/count is a violation); str slice and String cut offsets are byte offsets by provenance; '
+   'Decides: every panic-capable site of every analysed configuration is covered by the hand-reviewed audit, budgeted per function and site CLASS (sites of new helpers are charged to the reviewed callers; additions of in-memory sizes are discharged automatically); str slice and String cut offsets are byte offsets by provenance; '
    'constructor invariants behind `[0]`/todo!(); check_invariants rejects what ParseAdjacent would panic on (fixed 6c3b196); every loop is driven by a finite std/caller iterator or is a listed open loop whose '
    'variant is checked; every call-graph cycle is a listed structural recursion; group tokens never nest; ambient effects, statics, thread-locals, interior mutability absent outside the listed sites; eval/meta take &self; '
    'run_inner builds a fresh State. Found and fixed: d5c7918, f0c3a74, 6c3b196, de9de29. Known findings: two process::exit sites of the completion protocol. '
-   'Does NOT re-derive the arithmetic the audit asserts; user closures assumed total.', 'DESIGN.md section 5 C04',
+   'Does NOT re-derive the arithmetic the audit asserts; user closures assumed total.', 'DESIGN.md sections 0, 5 and Appendix E, C04',
    note='audit/panic_audit.json is part of the trusted base (reviewed reasons).'),
  'C05': C('who-may-write census, guard control-dependence, read=>remove pairing, error-discipline census, symbolic scope tracking along all paths (set_scope/clone/swap)',
    'Decides: the consumption ledger is written only by the listed primitives and is private (third-party parsers cannot consume); consumption acts only on in-scope present items; '
    'success of a consumer implies removal of what it read; Ok of run_subparser implies empty scope; the Err->Ok conversion sites are exactly the listed ones and each restores or never adopts '
-   'the failed attempt; ParseAdjacent/ParseCommand leave the caller scope un-narrowed on every Ok path (found and fixed 9061519). Does NOT decide scope arithmetic for every shape.', 'DESIGN.md section 5 C05'),
+   'the failed attempt; ParseAdjacent/ParseCommand leave the caller scope un-narrowed on every Ok path (found and fixed 9061519). Does NOT decide scope arithmetic for every shape.', 'DESIGN.md sections 0, 5 and Appendix E, C05'),
  'C06': C('enum->bool table extraction, construction-site context rule (control dependence on consumer success edges), decision tables of the wrappers by abstract evaluation, error-discipline census',
    'Decides: can_catch partitions the 17 Message variants as the property states; a variant built after a consumer succeeded is final; fallback/fallback_with/hide/parse_option decision tables '
    '(per variant x catch x consumed) default only for the absence class and return the same error otherwise; repetition loops stop on failure; conversion/guard text is carried into the rendered message. '
-   'Does NOT decide which error survives a particular nesting in alternatives.', 'DESIGN.md section 5 C06'),
+   'Does NOT decide which error survives a particular nesting in alternatives.', 'DESIGN.md sections 0, 5 and Appendix E, C06'),
  'C07': C('fork-isolation provenance, decision table of this_or_that_picks_first by abstract evaluation over (depth x err_a x err_b x tie x winner), ItemState tables + who-may-inspect census, macro witness',
    'Decides: both alternatives run exactly once on distinct clones; the 14-row adopt-one table (which fork is swapped into the caller state, result, conflicts saved; ties to the first, deeper fork first); '
    'the boolean selects the matching value; pick_winner scans forward over the ledgers only and reports its own side at the first mismatch; conflict-marked items stay present and only the listed functions '
-   'inspect ItemState; conflicts are reported before other guesses; construct!([..]) is a left-nested or_else chain. Does NOT decide value order under many/some.', 'DESIGN.md section 5 C07'),
+   'inspect ItemState; conflicts are reported before other guesses; construct!([..]) is a left-nested or_else chain. Does NOT decide value order under many/some.', 'DESIGN.md sections 0, 5 and Appendix E, C07'),
  'C08': C('front-only/accept-set tables for take_cmd, provenance of the scope bounds, dominance (path push before inner run), return-provenance (Ok/Err only from the inner run), depth rows of the C07 table',
    'Decides: the name must be the front unconsumed item; on a match the scope is `name index .. enclosing end`, the name is pushed on the path before the inner run, Ok and Err are exactly the inner '
    'run_subparser outcome (wrapped final), a retry only turns failure into success; nothing is touched when unmatched; deeper fork priority; final outcomes never caught (fixed e30e3d1); adjacent commands '
-   'restore the scope (fixed 9061519). Does NOT decide acceptance of whole lines.', 'DESIGN.md section 5 C08'),
+   'restore the scope (fixed 9061519). Does NOT decide acceptance of whole lines.', 'DESIGN.md sections 0, 5 and Appendix E, C08'),
  'C10': C('return census, edge-restricted reachability (error only after failed help lookup), provenance of render_help arguments, 17x17 combine_with table by abstract evaluation, sibling agreement Info::eval/meta',
    'Decides: run_subparser has exactly the listed outcome kinds; the error is rendered only on the Err edge of the help/version lookup performed on the same state; help payload describes the own level; '
    'help before version, version only when configured (eval/meta agree); only Ambiguity precedes; a ParseFailure operand always survives combine_with; final outcomes never caught; usage fallback tests the pristine state. '
-   'Known finding: construct! drops later fields outcomes (inner help lost when an earlier field fails). Does NOT decide which failing field is reported.', 'DESIGN.md section 5 C10',
+   'A failed adjacent group hands its state back with the scope of the caller (found and fixed 0baea63) and ties keep the earlier attempt; the deeper alternative decides. Known finding: construct! drops later fields outcomes (inner help lost when an earlier field fails). Does NOT decide which failing field is reported.', 'DESIGN.md sections 0, 5 and Appendix E, C10',
    note='Known finding S.sequential listed in known_findings.json.'),
  'C09': C('tokenizer control-dependence/provenance rules, accept-set tables, strictness decision table by abstract evaluation',
    'Decides: after `--` the tokenizer bypasses option splitting and pushes PosWord; pos_only is set only on the literal in the non-option arm; the separator index is recorded at detection and '
    'pre-consumed; PosWord is never accepted as name, command or argument value; take_positional_word tags Word/PosWord; parse_pos_word table over Position x side; StrictPos final, NonStrictPos catchable; '
-   'help lookup goes through take_flag. Does NOT decide completion interplay.', 'DESIGN.md section 5 C09'),
+   'help lookup goes through take_flag. Does NOT decide completion interplay.', 'DESIGN.md sections 0, 5 and Appendix E, C09'),
  'C11': C('enum->const tables, per-arm call census, dominance ordering, provenance of exit/print arguments, who-may-call census',
    'Decides: exit_code table; print_message stream per variant and payload/template per arm; run = run_inner(current_args()) with Ok silent and Err printing before exit(exit_code(err)); '
    'current_args consumes exactly argv[0] (file_name().to_str()) before boxing the same iterator; exit/print call sites are the listed ones; every render arm writes text. '
-   'Does NOT decide byte equality across the process boundary.', 'DESIGN.md section 5 C11'),
+   'Does NOT decide byte equality across the process boundary.', 'DESIGN.md sections 0, 5 and Appendix E, C11'),
  'C12': C('eval/meta sibling agreement per impl Parser (field provenance), Meta::Skip producer census, walker-exhaustiveness tables for the 7 Meta walkers, Dedup-key vs rendered-fields agreement, field-copy provenance, dominance order of render_help',
    'Decides: for each of the 30 Parser impls the sub-parsers evaluated are exactly the sub-parsers described and names matched are names described (listed exceptions: hide, construct!); Skip only from hide/pure/fail/name-less; '
    'every walker visits all children of And/Or and the child of each wrapper (listed exceptions by design); the de-duplication key covers every field the help line shows; HelpItem::from copies fields one to one; '
-   'first names shown are from the searched vectors; descr/usage/header/items/footer order. Does NOT decide grouping/dedup outcomes for particular shapes.', 'DESIGN.md section 5 C12'),
+   'first names shown are from the searched vectors; descr/usage/header/items/footer order. Does NOT decide grouping/dedup outcomes for particular shapes.', 'DESIGN.md sections 0, 5 and Appendix E, C12'),
  'C13': C('width non-interference by edge-restricted reachability (blocks that exist only because of a max_width comparison), exactly-once push by must-pass-through, constant census of all writes to the output, provenance of the width argument and of splitter chunks',
    'Decides: in the width-dependent region the output is only extended by newlines and truncated to its own trim_end(), and only a single-space chunk may be skipped; every Raw chunk is pushed exactly once; all other writes are '
    'whitespace constants or the TermRef backtick; `full` only starts skipping after the first paragraph; width comes from MAX_WIDTH / the formatter / the print_message parameter; the splitter only yields sub-slices of its input. '
-   'Does NOT decide the numeric line-length bound (a changed wrap threshold is missed by design).', 'DESIGN.md section 5 C13'),
+   'the line break before a chunk that does not fit depends only on `position + length > max_width` and a non-empty output; payload cursor advances exactly once per text token; Skip push/pop paired per block kind. Does NOT decide the numeric line-length bound (byte vs char counts).', 'DESIGN.md sections 0, 5 and Appendix E, C13'),
  'C14': C('must-pass-through on run_subparser, no-late-None reachability in check_complete, stash PAIR rules (swap_comps_with brackets), hint-emission must-pass-through on failing exits, hand-over rules for wrappers, dispatch table',
    'Decides (autocomplete builds): parsed value / help / error are reachable only after check_complete() returned None; check_complete gives up only when completion is off or the last item is not UTF-8; hide drops its stash while '
    'group_help/complete/complete_shell hand it back; every failing exit of the four primitives emits a hint (listed exception: NonStrictPos), hints carry self.depth() and are recorded only in completion mode; fallback/fallback_with move hints '
-   'back on every failure; revision dispatch. Does NOT decide the candidate set for a prefix.', 'DESIGN.md section 5 C14'),
+   'back on every failure; revision dispatch. Does NOT decide the candidate set for a prefix.', 'DESIGN.md sections 0, 5 and Appendix E, C14'),
  'C15': C('typed taint + template/CFG rules over type-checked MIR (custom rustc_private driver)',
    'Decides structural necessary conditions on every autocomplete configuration: every fmt argument render_zsh/render_bash '
    'write has the quoting newtype Shell as its resolved Display type (constants, integers and developer-supplied Raw strings '
    'excepted), every directive template ends in a newline, the accumulator is what is returned once written to, every return '
    'has iterated or size-tested both inputs (items, ops), the Shell escaper opens/closes/escapes, revision->renderer dispatch '
-   'and the stub revision constants agree. Does NOT decide what a real shell does with the text.', 'DESIGN.md section 5 C15',
+   'and the stub revision constants agree; line-oriented renderers (fish, elvish) cut descriptions at the first line break (found and fixed 1f8621c); string cuts use byte offsets. Does NOT decide what a real shell does with the text.', 'DESIGN.md sections 0, 5 and Appendix E, C15',
    note='Known findings (render_fish / render_simple never emit requested shell completers) are listed in known_findings.json.'),
  'C16': C('taint chain through both HTML replacements, per-Block tag tables from decoded constants, BlockStart/BlockEnd pairing by must-pass-through, escaper arm tables (byte tests) and line-start guard control dependence, interprocedural constant-argument census for unescaped roff source, section-walk rules',
    'Decides (docgen builds): the only dynamic text render_html appends is a chunk escaped for both < and >; tags opened per Block are closed by its BlockEnd arm and change_style nests correctly; every BlockStart is closed on all paths; '
    'the roff Spaces rule neutralises space AND newline, the Special rules write \\& at line start before . or \', at_line_start is tracked; unescaped roff source is constant at every call site; extract_sections records the level and '
-   'descends into every HelpItem::Command of the raw item list; html/markdown/manpage reuse the --help pipeline. Does NOT decide full roff/markdown correctness.', 'DESIGN.md section 5 C16'),
+   'descends into every HelpItem::Command of the raw item list; html/markdown/manpage reuse the --help pipeline; render_roff clears its header-capture flag and flushes on every path of the end arm of each block kind that sets it; payload cursors advance exactly once per text token. Does NOT decide full roff/markdown correctness.', 'DESIGN.md sections 0, 5 and Appendix E, C16'),
  'C17': C('translation validation: canonical MIR terms of the derive-generated function vs the documented hand-written equivalent, over a base family plus a VERIF_SEED-generated family',
    'For each family member the function generated by the current bpaf_derive and the combinator function prescribed by the documented rules (independent model, witness/derive_family/gen.py) are compiled and reduced to canonical '
    'terms (resolved callees with generic arguments, constants, aggregate shapes, closure statement shapes; order-insensitive builder chains folded). Equal terms => same parser value => identical outcome on every argv. '
-   '14 base members (one per rule/annotation) + 30 (quick) / 300 (thorough) seeded members. Definitions outside the family are not covered; the macro runs at compile time on the witnesses, nothing of bpaf is executed.', 'DESIGN.md section 5 C17',
+   '21 base members (one per rule/annotation, incl. naming annotations on unit variants and non-ASCII field names) + 30 (quick) / 300 (thorough) seeded members. Definitions outside the family are not covered; the macro runs at compile time on the witnesses, nothing of bpaf is executed.', 'DESIGN.md sections 0, 5 and Appendix E, C17',
    category='translation_validation'),
  'C18': C('who-may-call census incl. fn-item references, name provenance, precedence by edge-restricted reachability, single-conversion join',
    'Decides: std::env is used only at the listed sites with names from the declared env list; the flag/argument consumers consult the command line on every path and the environment only on '
-   'the absent edge; env and command-line values share the one parse_os_str conversion; both-absent exits build Missing/NoEnv which are catchable. Does NOT decide wrapper behaviour (C06).', 'DESIGN.md section 5 C18'),
+   'the absent edge; env and command-line values share the one parse_os_str conversion; both-absent exits build Missing/NoEnv which are catchable; every declared variable is consulted; a repetition threads one progress counter so the extra evaluation that falls back to the variable is not an occurrence. Known finding: that extra evaluation still converts the variable, so an INVALID value fails a run whose line supplied values. Does NOT decide wrapper behaviour (C06).', 'DESIGN.md sections 0, 5 and Appendix E, C18'),
  'C20': C('differential MIR between feature configurations (span-aligned statement multisets) + abstract evaluation under the assumption "completion is off" + inertness summaries of the completion family',
    'Decides: every analysed configuration builds; batteries/docgen(/derive) only add items (listed carried-data sites); colour features differ only at print-only sites and at render_console push sites that '
    'correspond one-to-one to Color::push_str, whose Monochrome arm is a verbatim push_str; every autocomplete-only statement that is live with completion off is a family call, a pure call or a write to an '
    'autocomplete-only local (nothing autocomplete-only writes the result, the State or a shared local); each family member returns a constant and writes only `comp` when completion is off; check_next is inert '
-   'without the marker; cfg(not) arms agree with the feature arm under the assumption (fixed a3af15e, efd14f3). Trusted: the analyser summaries.', 'DESIGN.md section 5 C20'),
+   'without the marker; cfg(not) arms agree with the feature arm under the assumption (fixed a3af15e, efd14f3). Trusted: the analyser summaries.', 'DESIGN.md sections 0, 5 and Appendix E, C20'),
 }
 
 NA_REASON = {
